@@ -36,7 +36,7 @@ Which limb-level function each integer-level theorem specifies, and what is PROV
 | `Decomposer.DecomposeAndSplit` | `Decomp.decomposeAndSplit` | `rns_digits_recombine` | **proved** (§3b): `decompose_single_limbs` (copy branch: limb `≡ digitA q_d [x]_{q_d}`, the code's centring), `decompose_multi_limbs` (HPS branch, named IEEE hypothesis: limb `≡ centeredRep Q_d x + δ·Q_d`, `< (k+2)·m`), `decompose_digits_recombine(_single)` (these digit values satisfy the hypothesis of `rns_digits_recombine`); `decompose_noP_counterexample` is about the limb-level twin itself |
 | `rlwe.Evaluator.DecomposeNTT` | `Decomp.decomposeNTT` | (digits of `DecomposeAndSplit` moved to the NTT domain) | **proved** (§3b, `N ≥ 16`): `decomposeNTT_some` (succeeds when `DecomposeAndSplit` does; digit `d` = `dnOut` of its output), `decomposeNTT_rows` (rows outside the digit's own moduli = reduced forward NTT of the residues `limb mod q` of the unreduced limbs `DecomposeAndSplit` wrote, via `nttStd_unreduced`; rows inside = the NTT-domain input rows), ranges from `decompose_multi_lt` / `decompose_single_limbs`.  The composition into ONE statement "`INTT` of every row ≡ digit value" is immediate from these but not spelled out |
 | `ring.MaskVec` | `Decomp.maskVec` | `pow2_digits_recombine`, `pow2_digit_lt` | **proved**: `maskVec_eq` (definitional) |
-| `ExtendBasisSmallNormAndCenter` | `BasisExt.extendSmallNorm` | `extendSmallNorm` | **proved** on the limb function itself (`extendSmallLimb` IS the limb code) |
+| `ExtendBasisSmallNormAndCenter` | `BasisExt.extendSmallNorm` | `extendSmallNorm` | **proved** at full strength on the limb function itself (`extendSmallLimb` IS the limb code, repaired by C03-9); `rlwe.ExtendBasisSmallNormAndCenterNTTMontgomery` keeps the old limb code: `extendSmallNormNTTMontgomery_limb_partial` + `_counterexample` |
 -/
 
 namespace Lattigo.Props.C02
@@ -323,20 +323,39 @@ theorem modDown_exact (qi P c x ei : Nat) (hqi : 0 < qi) (hc : (P * c) % qi = 1)
 
 example : modDownRes 7 1 (100 % 7) 2 = ((100 + 15 / 2) / 15) % 7 := by decide  -- test: q=7, P=15, x=100
 
-/-- `extendSmallNorm`: the limb the code writes modulo `p` represents the same signed integer as the residue `c`
-modulo `q_0` — PROVIDED a negative value fits: `q_0 − c ≤ p` (|x| ≤ p). -/
-theorem extendSmallNorm (q0 p c : Nat) (hcq : c < q0) (hq : q0 < W) (hp : p < W)
-    (hfit : q0 / 2 < c → q0 - c ≤ p) :
+/-- `extendSmallNorm` (full strength since repair C03-9 of /repo, which reduces `|x|` modulo `p` and maps `−0` to `0`):
+for EVERY residue `c < q_0` the limb `ringqp.Ring.ExtendBasisSmallNormAndCenter` writes modulo `p` represents the
+same signed integer as `c` modulo `q_0` — no relation between `|x|` and `p` is needed any more. -/
+theorem extendSmallNorm (q0 p c : Nat) (hcq : c < q0) (hq : q0 < W) (hp0 : 0 < p) (hp : p < W) :
     ((extendSmallLimb q0 p c : Nat) : Int) % p = centerInt q0 c % p :=
-  extendSmall_spec q0 p c hcq hq hp hfit
+  extendSmall_spec q0 p c hcq hq hp0 hp
 
-/-- The hypothesis `|x| ≤ p` is forced: for `x = −37` (`c = 60` mod `97`) and `p = 17` the uint64 subtraction
-`p − 37` wraps and the limb is `2^64 − 20 ≢ −37 (mod 17)`. (The real code does the same: harness lines
-`extsmall … large`, counted as outside the "small norm" contract, not as a violation.) -/
-theorem extendSmallNorm_large_counterexample :
-    extendSmallLimb 97 17 60 = W - 20 ∧
-    ((extendSmallLimb 97 17 60 : Nat) : Int) % (17 : Nat) ≠ centerInt 97 60 % (17 : Nat) :=
-  extendSmall_wraps
+example : extendSmallLimb 97 17 90 = 10 ∧ centerInt 97 90 = -7 := by decide  -- test
+
+/-- The former witness of the uint64 wrap (`x = −37`, i.e. `c = 60` mod `97`, `p = 17`; the unrepaired code wrote
+`2^64 − 20 ≢ −37`): the repaired code writes `14 ≡ −37 (mod 17)`.  The harness now PROBES the `extsmall … large`
+lines against the centred value (key `C02/ExtendBasisSmallNormAndCenter/not-centred-value-mod-p`). -/
+theorem extendSmallNorm_large_repaired :
+    extendSmallLimb 97 17 60 = 14 ∧
+    ((extendSmallLimb 97 17 60 : Nat) : Int) % (17 : Nat) = centerInt 97 60 % (17 : Nat) :=
+  extendSmall_large_repaired
+
+/-- `rlwe.ExtendBasisSmallNormAndCenterNTTMontgomery` (core/rlwe/utils.go) still has the old limb code
+(`extendSmallLimbWrap`, used by the twin `extendSmallNormNTTMont` between the INTT/IMForm and NTT/MForm steps): it
+writes the centred value modulo `p` PROVIDED a negative value fits, `q_0 − c ≤ p` (its in-tree callers pass
+secret keys, `|x| ≤ 1`) … -/
+theorem extendSmallNormNTTMontgomery_limb_partial (q0 p c : Nat) (hcq : c < q0) (hq : q0 < W) (hp : p < W)
+    (hfit : q0 / 2 < c → q0 - c ≤ p) :
+    ((extendSmallLimbWrap q0 p c : Nat) : Int) % p = centerInt q0 c % p :=
+  extendSmallWrap_spec q0 p c hcq hq hp hfit
+
+example : (97 : Nat) / 2 < 90 → 97 - 90 ≤ 17 := by decide  -- test: the hypothesis is satisfiable
+
+/-- … and the hypothesis is forced for that function: `p − 37` wraps on uint64. -/
+theorem extendSmallNormNTTMontgomery_limb_counterexample :
+    extendSmallLimbWrap 97 17 60 = W - 20 ∧
+    ((extendSmallLimbWrap 97 17 60 : Nat) : Int) % (17 : Nat) ≠ centerInt 97 60 % (17 : Nat) :=
+  extendSmallWrap_wraps
 
 /-! ### 2b. Limb level ⊑ integer level for `ModUpExact`, `ModUpQtoP/PtoQ`, `ModDownQPtoQ/QPtoP`
 
@@ -785,7 +804,9 @@ end Lattigo.Props.C02
 #print axioms Lattigo.Props.C02.modDown_err
 #print axioms Lattigo.Props.C02.modDown_exact
 #print axioms Lattigo.Props.C02.extendSmallNorm
-#print axioms Lattigo.Props.C02.extendSmallNorm_large_counterexample
+#print axioms Lattigo.Props.C02.extendSmallNorm_large_repaired
+#print axioms Lattigo.Props.C02.extendSmallNormNTTMontgomery_limb_partial
+#print axioms Lattigo.Props.C02.extendSmallNormNTTMontgomery_limb_counterexample
 #print axioms Lattigo.Props.C02.pow2_digit_lt
 #print axioms Lattigo.Props.C02.pow2_digits_recombine
 #print axioms Lattigo.Props.C02.pow2_digits_too_few
